@@ -449,7 +449,7 @@ def switch_forward(ck, thorough):
                 raise Inconclusive("%s: expected a violation of %s, got %s" % (what, want, r.violation))
         ck.cov["invariants"] = ck.cov.get("invariants", []) + SWF_INVS.split()
     # ---- (g) schedules: generated + the directed one (stop after the first packet, replay to the other link)
-    unis = [(3, 2, 1500, "a"), (4, 3, 700, "b")] if thorough else [(3, 2, 400, "a")]
+    unis = [(3, 2, 1200, "a"), (4, 3, 600, "b")] if thorough else [(3, 2, 400, "a")]
     agg = dict(traces=0, steps=0, distinct_schedules=0, distinct_with_link_stopped_mid_batch=0, step_histogram={},
                replays_after_abort=0, universes=[])
     for n, nout, num, tag in unis:
